@@ -336,11 +336,20 @@ def run_task(task):
                 for ops in ([["short", 64008], ["fixed", text], ["int", 16194277], ["estring", text[::-1]]],
                             [["char", 252], ["padded", text[: L - 3], L], ["three", 64009], ["epadded", text[: L // 2], L], ["string", "end"]],
                             [["bytes", (bytes([1, 0xFE, 0xFF, 0]) * (L // 4 + 1))[:L].hex()], ["efixed", text], ["byte", 255]]):
+                    if L >= 64008:
+                        ops = ops + []      # (copy) plus: short texts in huge padded fields
                     for san in (False, True):
                         case = {"sanitize": san, "ops": ops}
                         res.evaluations += 1
                         check_case(c, case, None)
                         res.nontrivial(["long", L, san, [o[0] for o in ops]])
+            for L in (300, 64009, 64010, 64012, 70001, 130000):
+                for ops in ([["char", 1], ["padded", "ab", L], ["short", 300]],
+                            [["epadded", "xyz", L], ["int", 5], ["padded", "", L], ["char", 9]]):
+                    case = {"sanitize": False, "ops": ops}
+                    res.evaluations += 1
+                    check_case(c, case, None)
+                    res.nontrivial(["hugepad", L, [o[0] for o in ops]])
         except Violation as v:
             res.violation(v)
         return res
